@@ -47,6 +47,7 @@ type cwScenario struct {
 	kind   string // call | notif
 	auth   string // none | grant | deny | block
 	ts     string // the handler's token source: "" = fine | tserr | tokerr | invalidgrant
+	close  string // "" | w | f: the session is CLOSED 500 ms (w) / 5 s (f) of virtual time after the message was started
 	bg     string // "" | posthang: ANOTHER call of the same session is in flight meanwhile (its POST accepted, never answered)
 	cancel bool
 	a1, a2 string
@@ -63,6 +64,9 @@ func (s *cwScenario) op() string {
 	}
 	if s.bg != "" {
 		ts += " bg=" + s.bg
+	}
+	if s.close != "" {
+		ts += " close=" + s.close
 	}
 	return fmt.Sprintf("wscn kind=%s auth=%s%s cancel=%d a1=%s a2=%s", s.kind, s.auth, ts, c, s.a1, s.a2)
 }
@@ -84,6 +88,11 @@ func cwParseScenario(line string) (*cwScenario, error) {
 			if v != "fine" {
 				s.ts = v
 			}
+		case "close":
+			if v != "w" && v != "f" {
+				return nil, fmt.Errorf("bad close")
+			}
+			s.close = v
 		case "bg":
 			if v != "posthang" {
 				return nil, fmt.Errorf("bad bg")
@@ -166,6 +175,7 @@ type cwServer struct {
 	mu     sync.Mutex
 	phase  string // init | bg | test | probe
 	bgPending int
+	resumes   int // resumption GETs of the message's event stream
 	deletes   int // DELETE requests (the session is deleted at Close unless the server has said that it is gone)
 	posts  int
 	toks   []bool
@@ -186,6 +196,24 @@ func (b *cwCutBody) Read(p []byte) (int, error) {
 	return 0, errCsCut
 }
 func (b *cwCutBody) Close() error { return nil }
+
+// cwOpenBody: the data, then the body stays open: Read returns when the request's context ends
+type cwOpenBody struct {
+	data []byte
+	pos  int
+	ctx  context.Context
+}
+
+func (b *cwOpenBody) Read(p []byte) (int, error) {
+	if b.pos < len(b.data) {
+		n := copy(p, b.data[b.pos:])
+		b.pos += n
+		return n, nil
+	}
+	<-b.ctx.Done()
+	return 0, b.ctx.Err()
+}
+func (b *cwOpenBody) Close() error { return nil }
 
 // cwHangBody: the body does not come; Read returns when the request's context ends
 type cwHangBody struct{ ctx context.Context }
@@ -251,6 +279,16 @@ func (sv *cwServer) answer(req *http.Request, a string, idJSON string) (*http.Re
 			rec := httptest.NewRecorder()
 			writeEvent(rec, Event{Name: "message", Data: []byte(result)})
 			return sv.resp(req, 200, "text/event-stream", sid, rec.Body.String()), nil
+		case "sseopen", "ssecuth", "ssecutt":
+			// an event stream that starts with a priming event carrying an id; sseopen: then stays open without events;
+			// ssecuth / ssecutt: then ends cleanly, and the resumption GETs are accepted and never answered / fail in transport
+			rec := httptest.NewRecorder()
+			writeEvent(rec, Event{ID: "w_0", Data: []byte{}})
+			r := sv.resp(req, 200, "text/event-stream", sid, rec.Body.String())
+			if p[1] == "sseopen" {
+				r.Body = &cwOpenBody{data: rec.Body.Bytes(), ctx: req.Context()}
+			}
+			return r, nil
 		case "other":
 			return sv.resp(req, 200, "text/plain", sid, "hello"), nil
 		}
@@ -269,6 +307,17 @@ func (sv *cwServer) RoundTrip(req *http.Request) (*http.Response, error) {
 		sv.mu.Unlock()
 		return sv.resp(req, http.StatusNoContent, "", "", ""), nil
 	case http.MethodGet:
+		if req.Header.Get(lastEventIDHeader) != "" {
+			// the resumption of the message's event stream (ssecuth / ssecutt)
+			sv.mu.Lock()
+			sv.resumes++
+			sv.mu.Unlock()
+			if strings.Contains(sv.s.a1+" "+sv.s.a2, "ssecutt") {
+				return nil, errors.New("verif: transport error")
+			}
+			<-req.Context().Done()
+			return nil, req.Context().Err()
+		}
 		return sv.resp(req, http.StatusMethodNotAllowed, "", "sess", ""), nil // no standalone stream
 	case http.MethodPost:
 		body, _ := io.ReadAll(req.Body)
@@ -353,6 +402,8 @@ func cwErrKind(err error) string {
 		return "body"
 	case strings.Contains(m, "failed to decode response"):
 		return "decode"
+	case strings.Contains(m, "failed to reconnect"):
+		return "reconnect"
 	case strings.Contains(m, "verif: transport error"):
 		return "terr"
 	case errors.Is(err, context.Canceled) || strings.Contains(m, "context canceled") ||
@@ -373,6 +424,8 @@ type cwResult struct {
 	auths int
 	end   string
 	probe string
+	closed string // close scenarios: did Close return
+	leak  bool
 	dels  int
 	bad   []string
 }
@@ -384,7 +437,11 @@ func cwRun(t *testing.T, s *cwScenario) (res cwResult) {
 	func() {
 		defer func() {
 			if r := recover(); r != nil {
-				sv.bad = append(sv.bad, "bubble:"+hxs(fmt.Sprint(r)))
+				if s.close != "" && strings.Contains(fmt.Sprint(r), "deadlock") {
+					res.leak = true // goroutines remain blocked for ever after Close: the bubble cannot exit
+				} else {
+					sv.bad = append(sv.bad, "bubble:"+hxs(fmt.Sprint(r)))
+				}
 			}
 		}()
 		synctest.Test(t, func(t *testing.T) {
@@ -447,13 +504,46 @@ func cwRun(t *testing.T, s *cwScenario) (res cwResult) {
 					err = cs.NotifyProgress(callCtx, &ProgressNotificationParams{ProgressToken: "p", Progress: 1})
 				}
 				if err != nil {
+					if s.close != "" && errors.Is(err, ErrConnectionClosed) {
+						done <- "err:closed"
+						return
+					}
 					done <- "err:" + cwErrKind(err)
 					return
 				}
 				done <- ok
 			}()
+			closeDone := make(chan struct{})
+			if s.close != "" {
+				if s.close == "w" {
+					time.Sleep(500 * time.Millisecond)
+				} else {
+					time.Sleep(5 * time.Second)
+				}
+				synctest.Wait()
+				go func() {
+					cs.Close()
+					close(closeDone)
+				}()
+				time.Sleep(time.Minute)
+				synctest.Wait()
+				select {
+				case <-closeDone:
+					res.closed = "at1m=returned"
+				default:
+					res.closed = "at1m=blocked"
+				}
+			}
 			time.Sleep(2 * time.Hour)
 			synctest.Wait()
+			if s.close != "" {
+				select {
+				case <-closeDone:
+					res.closed += " final=returned"
+				default:
+					res.closed += " final=blocked"
+				}
+			}
 			select {
 			case e := <-done:
 				res.end = e
@@ -473,6 +563,9 @@ func cwRun(t *testing.T, s *cwScenario) (res cwResult) {
 				pctx, stop := context.WithTimeout(ctx, time.Hour)
 				if err := cs.Ping(pctx, nil); err != nil {
 					res.probe = "err"
+					if s.close != "" && errors.Is(err, ErrConnectionClosed) {
+						res.probe = "closed"
+					}
 				} else {
 					res.probe = "ok"
 				}
@@ -533,6 +626,13 @@ func cwEmit(out *verifOut, cs string, s *cwScenario, r cwResult, extra ...string
 		} else {
 			tb += "0"
 		}
+	}
+	if s.close != "" {
+		lk := "none"
+		if r.leak {
+			lk = "leak"
+		}
+		out.line(cs, "closed", r.closed+" leak="+lk, "close-"+s.close)
 	}
 	out.line(cs, "posts", fmt.Sprintf("n=%d tok=%s auth=%d", r.posts, tb, r.auths), fmt.Sprintf("posts-%d", r.posts), fmt.Sprintf("authorize-%d", r.auths))
 	e := r.end
@@ -734,7 +834,7 @@ func coGenerate(emit func(*coScenario)) {
 
 func cwAnswers() []string {
 	return []string{"terr", "hang", "st401", "st403", "st401r", "st503", "st500r", "st429", "st404", "st404r", "st400", "st405", "st502",
-		"ok:json:s", "ok:json:x", "ok:jsonbad:s", "ok:jsoncut:s", "ok:jsonhang:s", "ok:sse:s", "ok:sse:x", "ok:other:s"}
+		"ok:json:s", "ok:json:x", "ok:jsonbad:s", "ok:jsoncut:s", "ok:jsonhang:s", "ok:sse:s", "ok:sse:x", "ok:other:s", "ok:sseopen:s", "ok:ssecuth:s", "ok:ssecutt:s"}
 }
 
 func cwIsAuthStatus(a string) bool { return strings.HasPrefix(a, "st401") || strings.HasPrefix(a, "st403") }
@@ -807,6 +907,25 @@ func cwGenerate(emit func(*cwScenario, string)) {
 			}
 		}
 	}
+	// ClientSession.Close while the message is on its way: every handler x ctx x close time x every answer (x the
+	// waiting answers to a retried POST)
+	for _, kind := range []string{"call", "notif"} {
+		for _, auth := range []string{"none", "grant", "block"} {
+			for _, cancel := range []bool{false, true} {
+				for _, cl := range []string{"w", "f"} {
+					for _, a1 := range ans {
+						a2s := []string{"terr"}
+						if auth == "grant" && cwIsAuthStatus(a1) {
+							a2s = []string{"ok:json:s", "hang", "ok:jsonhang:s", "ok:sseopen:s", "ok:ssecuth:s", "ok:ssecutt:s", "st503"}
+						}
+						for _, a2 := range a2s {
+							put(&cwScenario{kind: kind, auth: auth, cancel: cancel, a1: a1, a2: a2, close: cl}, "wc")
+						}
+					}
+				}
+			}
+		}
+	}
 	rng := verifRng(4242)
 	n := verifN(300, 3000)
 	if limit >= 0 {
@@ -836,6 +955,10 @@ func cwGenerate(emit func(*cwScenario, string)) {
 		}
 		if rng.Intn(4) == 0 {
 			s.bg = "posthang"
+		}
+		if rng.Intn(5) == 0 && s.bg == "" && s.ts == "" {
+			// (with another call in flight Close waits for that one too; with a failing token source Close's DELETE is not sent)
+			s.close = []string{"w", "f"}[rng.Intn(2)]
 		}
 		if s.auth == "grant" && rng.Intn(2) == 0 {
 			s.a1 = []string{"st401", "st403", "st401r", "st403r"}[rng.Intn(4)]
